@@ -2,7 +2,7 @@
 
 Enumerated (all of it, no sampling):
   contents   every string over {a, e-acute (2 bytes), LF, CR} of length <= L (quick 4: 341 files, thorough 6: 5 461 files),
-             24 buffer-boundary files (one line of 8191/8192/8193/16385 bytes of 1-/2-/3-byte characters, two layouts)
+             28 buffer-boundary files (one line of 8191/8192/8193/16385 bytes of 1-/2-/3-byte characters, 65535/131071 bytes of 1-byte ones, two layouts)
              and 9 whitespace probe files (one per non-terminator white-space character: a terminator strip must
              remove the LF only)
   variants   the 8 concrete classes (memory-mapped ones skip the empty file), record classes with an identity record
@@ -158,7 +158,7 @@ class LineSpec(Spec):
         else:
             f = self.cls(self.path, arg)
         f.open()
-        impl, model = Harness(f), (None, None, False, False)
+        impl, model = Harness(f), (None, None, False, False, False, False)
         for op in init.get("prefix", ()):
             model = self.step(impl, model, op)
         return impl, model
@@ -188,6 +188,8 @@ class LineSpec(Spec):
         if model[1] is not None:
             menu.append(("next", 1))
         menu.append(("list",))
+        if model[0] is not None or model[1] is not None:
+            menu.append(("reopen",))       # close() + open() of the object while an iteration of it is alive
         return menu
 
     # -- oracle ---------------------------------------------------------------------------------
@@ -214,6 +216,7 @@ class LineSpec(Spec):
         f, exp, n = impl.f, self.exp, self.n
         p = [model[0], model[1]]
         d = [model[2], model[3]]
+        ro = [model[4], model[5]]       # the object was closed and opened again since this iteration's last step
         kind = op[0]
         group, interleaved = "index", False
 
@@ -260,15 +263,30 @@ class LineSpec(Spec):
                 impl.its[k].close()
             r = observe(iter, f)
             if r[0] != "ok":
-                raise self.mismatch("exception", op, "iter(f) -> %r" % (r,), group, False, tuple(p + d))
+                raise self.mismatch("exception", op, "iter(f) -> %r" % (r,), group, False, tuple(p + d + ro))
             impl.its[k] = r[1]
-            p[k], d[k] = 0, False
-            return tuple(p + d)
+            p[k], d[k], ro[k] = 0, False, False
+            return tuple(p + d + ro)
+        elif kind == "reopen":
+            group = "reopen"
+            got = observe(lambda: (f.close(), f.open()) and None)
+            want = ("ok", None)
+            for k in (0, 1):
+                if p[k] is not None:
+                    d[k] = True
+                    ro[k] = True
         elif kind == "next":
             group = "iterate"
             k = op[1]
             interleaved = d[k]
             got = observe(next, impl.its[k])
+            if ro[k] and got[0] == "exc" and got[1] != "StopIteration":
+                # the statement does not say that an iteration survives close(): refusing to go on is accepted
+                # (a wrong line is not), the iteration is over then
+                impl.its[k] = None
+                p[k], d[k], ro[k] = None, False, False
+                return tuple(p + d + ro)
+            ro[k] = False
             if p[k] < n:
                 want = ("ok", exp[p[k]])
                 p[k] += 1
@@ -279,7 +297,7 @@ class LineSpec(Spec):
             disturb(but=k)
         else:
             raise AssertionError(op)
-        model2 = tuple(p + d)
+        model2 = tuple(p + d + ro)
         if got != want:
             if got[0] != "ok":
                 mk = "exception"
@@ -335,6 +353,8 @@ class LineSpec(Spec):
             return "list(f)"
         if kind == "iter":
             return "it%d = iter(f)" % (op[1] + 1)
+        if kind == "reopen":
+            return "f.close(); f.open()"
         return "next(it%d)" % (op[1] + 1)
 
     def snippet(self, init, hist):
@@ -561,8 +581,9 @@ def small_contents(maxlen):
 
 def boundary_contents():
     out = []
-    for nbytes in (8191, 8192, 8193, 16385):
-        for ch in ("a", "é", "€"):
+    # 65535 / 131071: the line with its terminator is an exact multiple of 64 KiB (piece-wise readers)
+    for nbytes in (8191, 8192, 8193, 16385, 65535, 131071):
+        for ch in ("a", "é", "€") if nbytes < 65535 else ("a",):
             w = len(ch.encode("utf-8"))
             body = ch * (nbytes // w)
             pad = "b" * (nbytes - w * (nbytes // w))
@@ -641,14 +662,14 @@ def run(report, tier):
         if g is None:
             continue
         bounds = {"small": {"max_content_length": maxlen, "history_bounds": hist_bounds},
-                  "boundary": {"line_bytes": [8191, 8192, 8193, 16385], "history_depth": bdepth},
+                  "boundary": {"line_bytes": [8191, 8192, 8193, 16385, 65535, 131071], "history_depth": bdepth},
                   "whitespace": {"chars": [repr(c) for c in WHITESPACE], "history_depth": 1}}[name]
         report.part(name, exhaustive=True, variants=len(VARIANTS), index_sources="built, list, file, all k-permutations of the lines, k<=%d" % MAXK[name],
                     history_initial_states="fresh object; object with an iterator that has delivered one line",
                     **bounds, **g)
     report.assume("UTF-8 is the text encoding of the buffered variants (run_check sets PYTHONUTF8=1)")
     report.assume("'lines longer than the I/O buffer' is decided at the buffer boundaries "
-                  "(8191/8192/8193/16385 bytes), not for every length")
+                  "(8191/8192/8193/16385 bytes, and 65535/131071 bytes for 1-byte characters), not for every length")
 
 
 # ------------------------------------------------------------------------------------------ replay
